@@ -191,7 +191,7 @@ def _rules(ck, prog, cfg):
             if (wa or wb) or (la or lb):
                 n2 += 1
             if (wa and lb) or (wb and la):
-                ck.bad("R13.2", "%s:cmp(wall-clock,lamport)%s" % (re.sub(r"::\{closure#\d+\}", "", f.id.replace("streaming::compaction::Compactor::<S, T>::", "")), _tag(cfg)),
+                ck.bad("R13.2", "%s:cmp(wall-clock,lamport)%s" % (re.sub(r"::\{closure#\d+\}", "", fn.id.replace("streaming::compaction::Compactor::<S, T>::", "")), _tag(cfg)),
                        "a Lamport logical time is compared with a wall-clock cutoff (`%s %s %s`): under the production clock every tombstone "
                        "is 'older than the TTL' and is dropped, so an older value in a skipped segment or the checkpoint resurfaces"
                        % (sa.path(), rv["op"], sb.path()), f.where(st["ln"]))
